@@ -23,8 +23,8 @@ static void run_program(vf_case *c, const vf_api *P, const vf_mat *A, uint64_t p
     int *mypc = malloc(sizeof(int) * (size_t)(n + 1)); rng_perm(r, mypc, n);
     int forced = rng_int(r, 0, 9);     /* 0 workspace too small, 1 growth failure, 2 size query, 3 generous workspace, else library allocation */
     void *work = NULL; int_t lwork = 0;
-    if (forced == 0) { lwork = (int_t)(64 + rng_int(r, 0, 40) * 24); work = malloc((size_t)lwork + 16); }
-    if (forced == 3) { lwork = (int_t)generous_lwork(P, n, A->nnz); work = malloc((size_t)lwork + 16); }
+    if (forced == 0) { lwork = (int_t)(64 + rng_int(r, 0, 40) * 24); work = vf_ws_alloc(c, (size_t)lwork + 16); }
+    if (forced == 3) { lwork = (int_t)generous_lwork(P, n, A->nnz); work = vf_ws_alloc(c, (size_t)lwork + 16); }
     if (forced == 2) lwork = -1;
     if (forced == 1) vf_fault_arm("expand", rng_int(r, 1, 6));
     out->forced = forced;
